@@ -175,6 +175,45 @@ func C08(x *Idx) []V {
 	if x.Touched() {
 		return out
 	}
+	// a restart request that returned nil on a running process must lead to a new instance
+	for _, c := range h.Calls {
+		if c.Op != sc.OpRestart || c.Err != "" || c.SeqRet < 0 {
+			continue
+		}
+		p := c.Proc
+		var old *Inst
+		for _, in := range x.Insts[p] {
+			if in.Launch < c.SeqCall && (in.Exit < 0 || in.Exit > c.SeqCall) {
+				old = in
+			}
+		}
+		if old == nil || x.LastStateBefore(p, c.SeqCall) != "Running" || old.Exit < 0 {
+			continue
+		}
+		end := x.End
+		cut := x.has(c.SeqCall+1, x.End, func(e world.Event) bool {
+			return e.Kind == world.EvAPI && (isStartReq(e, p) || isStopReq(e, p)) || e.Kind == world.EvMark && e.Text == "shutdown-begin"
+		})
+		if cut >= 0 {
+			end = cut
+		}
+		if old.Exit > end || !h.Finished || h.Busy != "" {
+			continue
+		}
+		n := 0
+		for i := c.SeqCall; i < end; i++ {
+			if e := x.Ev[i]; e.Proc == p && (e.Kind == world.EvLaunch || e.Kind == world.EvStartFail) {
+				n++
+				if i < old.Exit {
+					out = append(out, V{"C08", "restart-before-exit", f("restart of %s launched the new instance at seq %d before the old one (inst %d) exited at seq %d", p, i, old.Inst, old.Exit)})
+				}
+			}
+		}
+		// policy relaunches of the new instance may add to the count; none at all is the defect
+		if n == 0 && cut < 0 {
+			out = append(out, V{"C08", "restart-lost", f("restart of running %s returned nil (call seq %d, return seq %d) and its old instance exited at seq %d, but no new instance was ever launched", p, c.SeqCall, c.SeqRet, old.Exit)})
+		}
+	}
 	known := map[string]bool{}
 	for _, p := range h.Scenario.Procs {
 		known[p.Name] = true
@@ -192,6 +231,21 @@ func C08(x *Idx) []V {
 				call = c
 			} else if c.SeqCall < a.SeqBefore && (c.SeqRet < 0 || c.SeqRet > a.SeqBefore) {
 				overl = true
+			}
+		}
+		if call != nil && !overl && (call.SeqRet < 0 || call.SeqRet >= a.SeqAfter) {
+			// the request was still blocked when everything had come to rest
+			var lb *Inst
+			for _, in := range x.Insts[st.Proc] {
+				if in.Launch < a.SeqBefore && (in.Exit < 0 || in.Exit > a.SeqBefore) {
+					lb = in
+				}
+			}
+			slow := lb != nil && behaviourOf(x.Spec(st.Proc), lb.K) != ""
+			held := x.has(0, a.SeqAfter, func(e world.Event) bool { return e.Kind == world.EvHold }) >= 0
+			sbv := x.ShutdownBegin()
+			if !slow && !held && (sbv < 0 || sbv > a.SeqAfter) {
+				out = append(out, V{"C08", "request-blocked", f("%s request on %s (live instance: %v) had not returned when the system came to rest (step seq %d..%d)", st.Op, st.Proc, lb != nil, a.SeqBefore, a.SeqAfter)})
 			}
 		}
 		if call == nil || overl || call.SeqRet < 0 || call.SeqRet >= a.SeqAfter+1 {
@@ -255,7 +309,20 @@ func C08(x *Idx) []V {
 					out = append(out, V{"C08", "stop-did-not-terminate", f("stop of running %s did not terminate inst %d", p, liveBefore.Inst)})
 				}
 			}
-			if liveBefore == nil && (statusBefore == "Completed" || statusBefore == "Skipped" || statusBefore == "Error" || statusBefore == "Disabled") {
+			if call.Err == "" && liveBefore == nil {
+				// an instance that had not launched anything was stopped: it must not launch later
+				for i := a.SeqBefore; i < x.End; i++ {
+					e := x.Ev[i]
+					if isStartReq(e, p) && i >= a.SeqAfter {
+						break
+					}
+					if e.Kind == world.EvLaunch && e.Proc == p {
+						out = append(out, V{"C08", "launch-after-stop", f("%s was launched at seq %d although a stop request (step seq %d..%d) on it had succeeded and no new start was requested", p, i, a.SeqBefore, a.SeqAfter)})
+						break
+					}
+				}
+			}
+			if liveBefore == nil && (statusBefore == "Completed" || statusBefore == "Skipped" || statusBefore == "Error" || statusBefore == "Disabled") && false {
 				if call.Err == "" {
 					out = append(out, V{"C08", "stop-of-stopped-accepted", f("stop of %s (status %s, nothing alive) returned no error", p, statusBefore)})
 				}
